@@ -21,7 +21,7 @@ REQUIRED_THEOREMS = ['CfVerif.C11.' + t for t in (
     'load_never_wrong', 'fetch_after_insert_eq_store', 'downloaded_table_is_dict', 'json_proper_prefix_rejected',
     'truncation_is_miss', 'truncated_file_is_miss', 'missing_file_is_miss', 'unparsable_file_is_miss',
     'crash_then_restart_is_miss', 'miss_starts_download', 'miss_download_completes', 'hit_uses_cache', 'ro_never_written',
-    'init_never_writes_files', 'collision_counterexample', 'gen_keys', 'gen_decoder', 'gen_encoder', 'gen_fetch_lookup',
+    'init_never_writes_files', 'never_wrong_table', 'collision_counterexample', 'gen_keys', 'gen_decoder', 'gen_encoder', 'gen_fetch_lookup',
     'gen_fetch_load', 'gen_insert', 'gen_init', 'gen_fetcher', 'gen_crc_is_u32', 'gen_type_strings_valid')]
 TRUSTED = ['harness/corr/c11.py extractor + correspondence',
            "CPython json (C scanner/encoder) behaves as Model/C11 `loads`/`printToc` on the texts explored (validated on every run, not proved)",
@@ -1300,6 +1300,53 @@ def search(ctx):
                     ctx.witness('fetcher-requests', 'phase %s: %d element requests, expected %d' % (phase, reqs, expect_reqs), {'cls': cls, 'n': n, 'phase': phase})
                     break
                 ctx.count('search:fetcher-' + phase)
+        # (g2) histories (twin of never_wrong_table): completed inserts, inserts cut at any byte, restarts; afterwards every
+        #      checksum yields None or the table LAST written under it - and None when that last write was cut
+        for trial in range(60 if thorough else 15):
+            hd = '%s/h%d' % (root, trial)
+            cache = tc.TocCache(rw_cache=hd)
+            last = {}
+            crcs = [rng.randrange(2 ** 32) for _ in range(3)] + [0x0000BEEF, 0x1000BEEF]
+            for _ in range(rng.randrange(3, 14)):
+                op = rng.choice(['insert', 'insert', 'cut', 'restart'])
+                crc = rng.choice(crcs)
+                if op == 'restart':
+                    cache = tc.TocCache(rw_cache=hd)
+                    continue
+                toc = gen_toc(rng, types, max_groups=2, max_names=2)
+                if op == 'insert':
+                    cache.insert(crc, toc_real(toc))
+                    last[crc] = (toc, True)
+                else:
+                    n = len(json.dumps(toc_real(toc), indent=2, default=cache._encoder))
+                    k = rng.choice([0, 1, n - 1, rng.randrange(n)])
+
+                    def cut_open(name, mode='r', *a, **kw):
+                        f = open(name, mode, *a, **kw)
+                        return CutWriter(f, k) if 'w' in mode else f
+                    tc.open = cut_open
+                    try:
+                        cache.insert(crc, toc_real(toc))
+                    finally:
+                        del tc.open
+                    last[crc] = (toc, False)
+            for c2 in (cache, tc.TocCache(rw_cache=hd)):
+                for crc in crcs:
+                    try:
+                        got = c2.fetch(crc)
+                    except Exception as e:
+                        ctx.witness('fetch-raised', 'fetch raised %s after a history of inserts/cuts/restarts' % type(e).__name__, {'crc': crc})
+                        continue
+                    if got is None:
+                        if crc in last and last[crc][1] and last[crc][0] and not has_class_key(last[crc][0]) and c2 is not cache:
+                            ctx.witness('stored-table-not-loaded', 'the table last stored completely is not found by a new TocCache', {'crc': crc})
+                        continue
+                    if crc not in last or not last[crc][1] or table_fields(got) != want_fields(last[crc][0]):
+                        ctx.witness('history-wrong-table', 'after a history of inserts, cut writes and restarts fetch returned a table that is not '
+                                    'the one last (completely) written under this checksum', {'crc': crc, 'complete': last.get(crc, (None, None))[1]},
+                                    got=str(table_fields(got))[:300])
+                    else:
+                        ctx.count('search:history-last-written')
         # (h) colliding checksums: the log and the parameter table of one firmware announce the same CRC
         crc = 0x5EEDC0DE
         log_elems, par_elems = device_table(rng, 'L', 3), device_table(rng, 'P', 3)
